@@ -13,8 +13,9 @@ RULE = ('real TransmissionModel (compact and inflated atmospheres: top at 0.01..
         'optional CIA/Rayleigh/cloud/flat haze/Lee haze, both path methods; every 5th case reuses ONE model object '
         'across 2-3 parameter changes through model[name]=value (T, Rp, Mp, pressure range, abundances, cloud top). distinct non-trivial = distinct '
         '(layers, contribution multiset, regime, method) with at least one column neither transparent nor saturated')
-ASSUMPTIONS = ['3-D line/sphere geometry (taurex/util/geometry.py) is not modelled: model.path_length is compared with '
-               'the closed-form chord differences (rel 1e-9 + 1e-11 of the total chord)',
+ASSUMPTIONS = ['3-D line/sphere geometry (taurex/util/geometry.py): modelled step by step (Geometry.lean), proved equal to '
+               'the closed-form chord differences (path3d_eq_chordNew); model.path_length is compared with both (rel '
+               '1e-9 + 1e-11 of the total chord); NaN of sqrt(negative discriminant) + np.isfinite = the test 0 <= delta',
                'numba kernels contribute_tau/contribute_cia and np.sum/np.exp behave as documented; rounding not '
                'modelled: tau compared to 1e-9 relative (transmittance to 1e-9*(1+tau))',
                'contribution sigma_xsec arrays are taken from the real prepared contributions (their construction is '
@@ -303,6 +304,19 @@ def judge(ctx, case, spec, m, obs, do_scale, stream):
                          dict(layer=l, impl=ipaths[l], model=mpaths[l]))
             break
     ctx.disagreements_checked += 1
+    if new:
+        # the 3-D line/sphere geometry itself (Geometry.pathRow3d mirrors taurex/util/geometry.py step by step):
+        # the same numbers up to rounding, and the same number of spheres hit
+        d = ctx.model().call('c01.paths3d', C.F(rp), C.L(z), C.L(dz), C.L(zb))
+        gpaths = d.list(lambda: np.array(d.list()))
+        ctx.disagreements_checked += 1
+        for l in range(min(n, len(ipaths))):
+            tot = float(np.sum(np.abs(gpaths[l]))) if len(gpaths[l]) else 0.0
+            if len(ipaths[l]) != len(gpaths[l]) or not C.close(ipaths[l], gpaths[l], rel=1e-9, abs_=1e-11 * tot):
+                ctx.mismatch('path_length[new] vs Geometry.pathRow3d (3-D geometry model)', case,
+                             dict(layer=l, impl=ipaths[l], model=gpaths[l]))
+                break
+        ctx.bucket('geometry-model-compared')
     for l in range(n):
         tot = float(np.sum(np.abs(opaths[l])))
         if len(ipaths) != n or len(ipaths[l]) != n - l or not C.close(ipaths[l], opaths[l], rel=1e-9, abs_=1e-11 * tot):
